@@ -83,7 +83,7 @@ a Transfer-Encoding entry (then it is `chunked`, alone) the framing fields of th
 goes out; otherwise no Transfer-Encoding goes out and at most one Content-Length, whose value is a plain decimal
 denoting the length Squid uses. -/
 theorem forwarded_never_CL_and_TE_nor_two_CL (cfg : Smuggle.Cfg) (url : Bytes → Bytes → Option UrlView) (buf rest : Bytes)
-    (es : List Entry) (cl : Int) (vmaj vmin : Nat) (m u : Bytes) (h : head cfg url buf = .ok rest es cl vmaj vmin m u) :
+    (es : List Entry) (cl : Int) (vmaj vmin : Nat) (m u : Bytes) (h : head cfg url buf = .ok rest es cl vmaj vmin m u keep) :
     let out := forwardedFraming es (chunkedRequest (bodyKind es cl) cl)
     (out.filter isCl).length + (out.filter isTe).length ≤ 1 ∧
     (∀ e ∈ out, e.id = idTransferEncoding → e.value = chunkedToken ∧ chunked es = true) ∧
@@ -146,7 +146,7 @@ theorem content_length_body_sound (cfg : Smuggle.Cfg) (url : Bytes → Bytes →
   · simp at h
   · simp at h
   · simp at h
-  · rename_i rest0 es cl vmaj vmin m u hh
+  · rename_i rest0 es cl vmaj vmin m u keep hh
     have hdcl : d.cl = if hasId es idContentLength then some cl else none := by
       split at h
       · simp only [Step.msg.injEq] at h; obtain ⟨_, _, rfl⟩ := h; rfl
@@ -186,5 +186,101 @@ theorem content_length_body_sound (cfg : Smuggle.Cfg) (url : Bytes → Bytes →
       split at hcln
       · simp [getInt64] at hcln
       · omega
+
+/-! ### the three regions where the property statement is false of the code (known findings), and their repaired variants -/
+
+/-- every target is an acceptable http URL (the counterexamples do not depend on `AnyP::Uri::parse`) -/
+def anyUrl : Bytes → Bytes → Option UrlView := fun _ _ => some ⟨protoHTTP, false⟩
+
+/-- the code as it is: no repair switch set (`unrepaired`), parser mode and `request_header_max_size` as given -/
+def unrepaired (relaxed : Bool) : Smuggle.Cfg := ⟨{ relaxed := relaxed, limit := 65536, fixCr := true, fixLine := true }, false, false⟩
+def repaired (relaxed : Bool) : Smuggle.Cfg := ⟨{ relaxed := relaxed, limit := 65536, fixCr := true, fixLine := true }, true, true⟩
+
+/-- `POST http://h/ HTTP/1.1` with `Content-Length: 3` and `Transfer-Encoding: chunked`, the body `0 CRLF CRLF`, then
+`GET http://h/ HTTP/1.1` -/
+def teClStream : Bytes :=
+  [80, 79, 83, 84, 32, 104, 116, 116, 112, 58, 47, 47, 104, 47, 32, 72, 84, 84, 80, 47, 49, 46, 49, 13, 10, 67, 111, 110, 116, 101, 110, 116, 45, 76, 101, 110, 103, 116, 104, 58, 32, 51, 13, 10, 84, 114, 97, 110, 115, 102, 101, 114, 45, 69, 110, 99, 111, 100, 105, 110, 103, 58, 32, 99, 104, 117, 110, 107, 101, 100, 13, 10, 13, 10, 48, 13, 10, 13, 10, 71, 69, 84, 32, 104, 116, 116, 112, 58, 47, 47, 104, 47, 32, 72, 84, 84, 80, 47, 49, 46, 49, 13, 10, 13, 10]
+
+/-- **Counterexample (finding C03-te-cl-connection-kept).** RFC 9112 6.1: a request with both Transfer-Encoding and
+Content-Length may be processed by Transfer-Encoding alone, but the connection MUST be closed after responding. The
+code as it is (both parser modes) marks the request persistent and hands on the next pipelined request as well. -/
+theorem te_and_cl_keeps_reading_counterexample :
+    ((delimit (unrepaired true) anyUrl teClStream).1.map fun m => (m.start, m.stop, m.d.kind, m.d.persistent)) =
+      [(0, 79, .ch, true), (79, 105, .none, true)] ∧
+    ((delimit (unrepaired false) anyUrl teClStream).1.map fun m => (m.start, m.stop, m.d.kind, m.d.persistent)) =
+      [(0, 79, .ch, true), (79, 105, .none, true)] := by
+  constructor <;> decide +kernel
+
+/-- with the repair of notes/fixes/C03-te-cl-connection-kept.diff the same request is the last one of its connection -/
+theorem te_and_cl_closes_when_repaired :
+    (delimit (repaired true) anyUrl teClStream).2 = .closing 79 ∧ (delimit (repaired true) anyUrl teClStream).1.length = 1 := by
+  constructor <;> decide +kernel
+
+/-- the repaired variant, for every request: a chunked request whose header block had a Content-Length field, or that
+is HTTP/1.0 or older, is never marked persistent -/
+theorem repaired_te_and_cl_never_persistent (es : List Entry) (vmaj vmin : Nat) (clSeen : Bool)
+    (hte : chunked es = true) (h : clSeen = true ∨ verLe10' vmaj vmin = true) :
+    proxyKeepalive true es vmaj vmin clSeen = false := by
+  unfold proxyKeepalive
+  rcases h with h | h <;> simp [hte, h]
+
+/-- `POST http://h/ HTTP/1.1`, `Transfer-Encoding: <VT>chunked`, `0 CRLF CRLF` -/
+def vtChunkedStream : Bytes :=
+  [80, 79, 83, 84, 32, 104, 116, 116, 112, 58, 47, 47, 104, 47, 32, 72, 84, 84, 80, 47, 49, 46, 49, 13, 10, 84, 114, 97, 110, 115, 102, 101, 114, 45, 69, 110, 99, 111, 100, 105, 110, 103, 58, 32, 11, 99, 104, 117, 110, 107, 101, 100, 13, 10, 13, 10, 48, 13, 10, 13, 10]
+
+/-- **Counterexample (finding C03-vt-ff-padded-framing-value).** `Transfer-Encoding: <VT>chunked` is not the coding
+`chunked` for a strict recipient (OWS is SP / HTAB); the strict-mode and relaxed-mode code both take it for chunked. -/
+theorem vt_padded_chunked_accepted_counterexample :
+    ((delimit (unrepaired false) anyUrl vtChunkedStream).1.map fun m => (m.start, m.headEnd, m.stop, m.d.kind, m.d.te)) =
+      [(0, 56, 61, .ch, true)] ∧
+    ((delimit (unrepaired true) anyUrl vtChunkedStream).1.map fun m => (m.start, m.headEnd, m.stop, m.d.kind, m.d.te)) =
+      [(0, 56, 61, .ch, true)] := by
+  constructor <;> decide +kernel
+
+/-- `POST http://h/ HTTP/0.9`, `Content-Length: 3`, blank line, `abc` -/
+def post09Stream : Bytes :=
+  [80, 79, 83, 84, 32, 104, 116, 116, 112, 58, 47, 47, 104, 47, 32, 72, 84, 84, 80, 47, 48, 46, 57, 13, 10, 67, 111, 110, 116, 101, 110, 116, 45, 76, 101, 110, 103, 116, 104, 58, 32, 51, 13, 10, 13, 10, 97, 98, 99]
+
+/-- **Counterexample (finding C03-http09-non-get).** With the relaxed parser the request line `POST http://h/ HTTP/0.9`
+alone is handed on as a complete HTTP/0.9 request (no header, no body, not persistent); the header lines and the body
+the client sent with it are left for "the next request". -/
+theorem explicit_http09_post_accepted_counterexample :
+    ((delimit (unrepaired true) anyUrl post09Stream).1.map fun m => (m.start, m.headEnd, m.stop, m.d.kind)) =
+      [(0, 25, 25, .none)] ∧
+    ((delimit (unrepaired true) anyUrl post09Stream).1.map fun m => (m.d.vmaj, m.d.vmin, m.d.persistent)) = [(0, 9, false)] ∧
+    (delimit (unrepaired true) anyUrl post09Stream).2 = .closing 25 := by
+  refine ⟨by decide +kernel, by decide +kernel, by decide +kernel⟩
+
+/-- with the repair of notes/fixes/C03-http09-non-get.diff the request is answered with 400 and nothing is handed on -/
+theorem explicit_http09_post_rejected_when_repaired :
+    delimit (repaired true) anyUrl post09Stream = ([], .rej 0 400 .framing) := by decide +kernel
+
+/-- the repaired variant, for every request: an HTTP/0.x request with a method other than GET never passes
+`checkEntityFraming` -/
+theorem repaired_http0_non_get_rejected (h : HdrResult) (vmin : Nat) (m : Bytes) (cl : Int) (hm : (m == mGET) = false)
+    (hch : chunked h.entries = false) : checkEntityFraming true h 0 vmin m cl ≠ 0 := by
+  unfold checkEntityFraming
+  split
+  · decide
+  · simp only [hch, Bool.false_eq_true, if_false]
+    split
+    · decide
+    · simp [verLe10, hm]
+
+/-! ### non-vacuity -/
+
+/-- a strictly valid pipeline of three requests (Content-Length body, chunked body with an extension, no body) is handed
+on at exactly its message boundaries, each message persistent -/
+example : ((delimit (unrepaired false) anyUrl
+    ([80, 79, 83, 84, 32, 104, 116, 116, 112, 58, 47, 47, 104, 47, 32, 72, 84, 84, 80, 47, 49, 46, 49, 13, 10, 67, 111, 110, 116, 101, 110, 116, 45, 76, 101, 110, 103, 116, 104, 58, 32, 51, 13, 10, 13, 10, 97, 98, 99] ++
+     [80, 79, 83, 84, 32, 104, 116, 116, 112, 58, 47, 47, 104, 47, 32, 72, 84, 84, 80, 47, 49, 46, 49, 13, 10, 84, 114, 97, 110, 115, 102, 101, 114, 45, 69, 110, 99, 111, 100, 105, 110, 103, 58, 32, 99, 104, 117, 110, 107, 101, 100, 13, 10, 13, 10, 51, 59, 97, 61, 98, 13, 10, 97, 98, 99, 13, 10, 48, 13, 10, 13, 10] ++
+     [71, 69, 84, 32, 104, 116, 116, 112, 58, 47, 47, 104, 47, 32, 72, 84, 84, 80, 47, 49, 46, 49, 13, 10, 13, 10])).1.map
+      fun m => (m.start, m.headEnd, m.stop, m.d.kind, m.d.body)) =
+    [(0, 46, 49, .cl, [97, 98, 99]), (49, 104, 121, .ch, [97, 98, 99]), (121, 147, 147, .none, [])] := by decide +kernel
+
+/-- conflicting Content-Length values: an error reply, and the bytes after it are not read -/
+example : delimit (unrepaired true) anyUrl
+    [80, 79, 83, 84, 32, 104, 116, 116, 112, 58, 47, 47, 104, 47, 32, 72, 84, 84, 80, 47, 49, 46, 49, 13, 10, 67, 111, 110, 116, 101, 110, 116, 45, 76, 101, 110, 103, 116, 104, 58, 32, 51, 13, 10, 67, 111, 110, 116, 101, 110, 116, 45, 76, 101, 110, 103, 116, 104, 58, 32, 52, 13, 10, 13, 10, 97, 98, 99, 100]
+    = ([], .rej 0 400 .framing) := by decide +kernel
 
 end SquidModel.C03
